@@ -24,7 +24,8 @@ EXPLANATION = (
     "with C12.R4).  (R12) every result of a float + - * / on two run-time operands and every narrowing of a double to a single is tested with is_finite before it becomes a value (Overflow instead of infinity); R7 also covers the functions of the value arithmetic that pick the narrowest type for a float result (no unguarded, saturating float-to-integer conversion).  (R13) a size or address narrowed to i32 in the VM's value code (LEN, VARPTR, VARSEG, INSTR) is compared with a bound first."
     " (R7, extended) the range test of a narrowing conversion is followed into the helper of the same file that performs the conversion."
     " (R14) a float that enters the VM from text (str::parse), from bytes or from digit-by-digit accumulation is tested with is_finite in the function that obtains it."
-    " (R15) the payload of an existing INTEGER / LONG value written through a reference receives the result of a conversion function or a copy, never an operation computed on the spot.")
+    " (R15) the payload of an existing INTEGER / LONG value written through a reference receives the result of a conversion function or a copy, never an operation computed on the spot."
+    " (R16 = C03.R9 / R3) the pending by-reference write-backs of a call are not mixed up with those of a call made while they are written back.")
 NOT_DECIDED = [
     "rounding direction and the exact boundary constants of each conversion (value-level)",
     "C06.R3 covers payloads computed by integer arithmetic inside the constructing function; values "
